@@ -50,7 +50,7 @@ fn floors(t: Tier) -> Vec<(String, u64)> {
         ("fault.vendor".into(), 65535),
         ("fault.error_type".into(), 65527),
         ("fault.offset".into(), 1000),
-        ("fault.incomplete".into(), 500),
+        ("fault.incomplete".into(), 300),
         ("fault.bad_utf8".into(), 500),
         ("render.checked".into(), 65536 * 8),
         ("render.assigned_names".into(), 39 * 3),
